@@ -56,6 +56,11 @@ def Scalars.alwaysImm : Scalars → Bool
   | .inwit _ | .wit | .header _ | .block _ | .seq .stacks | .seq .txs => true
   | _ => false
 
+/-- `vin`/`vout`: `from_tx` and `CTransaction.__init__` always build a new list/tuple for them -/
+def Scalars.rebuilt : Scalars → Bool
+  | .seq .ins | .seq .outs => true
+  | _ => false
+
 structure Obj where
   isMut : Bool
   sc : Scalars
@@ -169,7 +174,7 @@ end
     immutable (`tm = false`) or mutable (`tm = true`) class, as a plan:
     * an instance of the immutable class is returned as is by the immutable class's `from_*`;
     * witness objects are passed on as they are by both `from_tx` (no mutable variant exists);
-    * `tuple(… for … in …)` / `[… for … in …]` always build a new sequence;
+    * `tuple(… for … in …)` / `[… for … in …]` always build a new `vin`/`vout` sequence;
     * everything else is rebuilt from the attribute values and the copied parts. -/
 def planClone (tm : Bool) : Nat → Heap → Addr → Option Plan
   | 0, _, _ => none
@@ -177,7 +182,7 @@ def planClone (tm : Bool) : Nat → Heap → Addr → Option Plan
     match h[a]? with
     | none => none
     | some o =>
-      if !o.sc.isSeq && !o.isMut && (!tm || o.sc.alwaysImm) then some (.ref a)
+      if !o.sc.rebuilt && !o.isMut && (!tm || o.sc.alwaysImm) then some (.ref a)
       else (mapO (planClone tm f h) o.refs).map (Plan.node tm o.sc)
 
 def planOutPoint (m : Bool) (o : OutPoint) : Plan := .node m (.outpoint o.hash o.n) []
